@@ -12,7 +12,7 @@ RULE = ('Hypothesis-generated molecules of 1..12 fragments on a random 30..120 b
         'qualities from {2,20,30,40,0} so that quality ties between mates and vote ties are frequent, CIGARs with '
         'soft clips / insertions / deletions. Molecule.get_consensus (plain and dove_safe) is compared with a brute-force '
         'vote; metamorphic: all permutations of the insertion order (<=4 fragments; 6 drawn otherwise) and duplication of '
-        'every fragment. Non-trivial: at least one tied (absent) position and one position where the mates of a '
+        'every fragment; history: an earlier get_consensus call in either mode on the same molecule object. Part deep: molecules of 254..520 single-read fragments in which 1 / n-256 / 255..257 / n/2 fragments carry another base (vote counters around 256 and 512). Non-trivial: at least one tied (absent) position and one position where the mates of a '
         'fragment disagree.')
 ASSUMPTIONS = ['fragments have an R1 flagged read1 (the implementation asserts it); reads carry correct MD tags',
                'all fragments of a molecule share cell, UMI and R1 orientation (what molecule assignment guarantees)']
@@ -100,7 +100,36 @@ def strategy():
                 r2 = draw(read(ref, s2, ln2))
             frags.append({'r1': r1, 'r2': r2})
         return {'ref': ref, 'r1_rev': r1_rev, 'frags': frags, 'dove_safe': draw(st.sampled_from([False, False, True])),
+                'prior': draw(st.sampled_from([None, None, True, False])),
                 'perm_seeds': draw(st.lists(st.integers(0, 10 ** 6), min_size=6, max_size=6))}
+    return case()
+
+
+def deep_strategy():
+    """Very deep molecules (around 256 and 512 fragments): vote counters must not saturate or wrap."""
+    @st.composite
+    def case(draw):
+        L = 40
+        ref = ''.join(draw(st.lists(st.sampled_from('ACGT'), min_size=L, max_size=L)))
+        n = draw(st.sampled_from([254, 255, 256, 257, 258, 300, 511, 512, 513, 520]))
+        ln = draw(st.integers(6, 12))
+        start = draw(st.integers(0, L - ln))
+        # per position: how many fragments carry an alternative base (0, few, n-256, 255/256/257, half)
+        alts = {}
+        for p in draw(st.lists(st.integers(0, ln - 1), min_size=1, max_size=4, unique=True)):
+            k = draw(st.sampled_from([1, 2, n - 256, n - 255, 255, 256, 257, n // 2, n - 1]))
+            if 0 < k < n:
+                alts[p] = (k, draw(st.sampled_from('ACGT')))
+        frags = []
+        for i in range(n):
+            seq = list(ref[start:start + ln])
+            for p, (k, b) in alts.items():
+                if i < k:
+                    seq[p] = b if b != seq[p] else 'ACGT'[('ACGT'.index(b) + 1) % 4]
+            frags.append({'r1': {'pos': start, 'cigar': '%dM' % ln, 'seq': ''.join(seq), 'qual': [30] * ln}, 'r2': None})
+        rot = draw(st.integers(0, n - 1))
+        frags = frags[rot:] + frags[:rot]
+        return {'ref': ref, 'r1_rev': draw(st.booleans()), 'frags': frags, 'dove_safe': False, 'prior': None, 'perm_seeds': [], 'deep': True}
     return case()
 
 
@@ -187,6 +216,9 @@ def run_molecule(case, order, double=False):
     for f in frs[1:]:
         if not m.add_fragment(f):
             raise RuntimeError('harness: fragment refused by molecule')
+    if case.get('prior') is not None:
+        # an earlier query on the same molecule object, possibly in the other mode: answers may not depend on it
+        m.get_consensus(dove_safe=case['prior'])
     got = m.get_consensus(dove_safe=case['dove_safe'])
     return {k[1] if isinstance(k, tuple) else k: v for k, v in got.items()}, len(m)
 
@@ -212,6 +244,12 @@ def eval_case(case):
     except Exception as e:
         return out.bad('exception:%s' % type(e).__name__, repr(e))
     mode = 'dove_safe' if case['dove_safe'] else 'plain'
+    if case.get('prior') is not None and got != exp:
+        g0, _ = run_molecule(dict(case, prior=None), base)
+        if g0 == exp:
+            out.bad('%s:answer-depends-on-an-earlier-query' % mode, 'after get_consensus(dove_safe=%r) on the same molecule: %d positions differ from the answer of a fresh molecule' % (
+                case['prior'], len(set(got.items()) ^ set(exp.items()))))
+            return out
     if got != exp:
         diffs = sorted(set(got.items()) ^ set(exp.items()))
         p = diffs[0][0]
@@ -227,6 +265,10 @@ def eval_case(case):
             kind = 'wrong-base'
         out.bad('%s:%s' % (mode, kind), 'position %d: got %r expected %r; fragment votes there %r; r1_rev=%r' % (
             p, got.get(p), exp.get(p), tally, case['r1_rev']))
+        return out
+    if case.get('deep'):
+        out.nontrivial = n >= 256
+        out.label('deep molecule: %d fragments' % n)
         return out
     # metamorphic: insertion order
     if n <= 4:
@@ -251,4 +293,5 @@ def eval_case(case):
 
 def parts(tier):
     t = tier == 'thorough'
-    return [Part('molecules', eval_case, strategy=strategy, examples=300000 if t else 4000)]
+    return [Part('molecules', eval_case, strategy=strategy, examples=300000 if t else 4000),
+            Part('deep', eval_case, strategy=deep_strategy, examples=3000 if t else 64)]
